@@ -135,8 +135,8 @@ class Mon:
 
         monitor.capture_init(P.Deltas)
         monitor.capture_init(P.Stack)
-        monitor.attach(P.Deltas, "apply", pre=self.pre, post=self.post_deltas)
-        monitor.attach(P.Stack, "apply", pre=self.pre, post=self.post_stack)
+        monitor.attach(P.Deltas, "apply", pre=self.pre, post=self.post_deltas, ambient=self.v, ambient_ok=monitor.not_in_place)
+        monitor.attach(P.Stack, "apply", pre=self.pre, post=self.post_stack, ambient=self.v, ambient_ok=monitor.not_in_place)
 
     @staticmethod
     def deltas_cfg(d):
@@ -215,7 +215,28 @@ class Mon:
             self.v("Deltas.apply raised %r where the documented result is defined" % (c.exc,), check="raise", **info)
             return
         out = np.asarray(c.result)
-        self._cmp(out, ref, before, info, "Deltas", getattr(deltas_ref, "last64", None))
+        wide = before.dtype in (np.dtype("int64"), np.dtype("uint64"), np.dtype("longdouble"))
+        if wide:
+            # element types wider than the float64 the filters work in: "the input followed by ..." - the first block is the input itself,
+            # bit for bit; the filtered copies are judged relative to the largest input value
+            self.rec.count("deltas_on_element_types_wider_than_float64")
+            if out.shape != ref.shape or out.dtype != before.dtype:
+                self._cmp(out, ref, before, info, "Deltas")
+            elif out.size:
+                ta = target_axis % out.ndim
+                T0 = before.shape[ta] if concatenate else 1
+                first = np.take(out, np.arange(T0), axis=ta)
+                first = first if concatenate else np.squeeze(first, ta)
+                if not np.array_equal(first, before):
+                    i = tuple(np.argwhere(first != before)[0])
+                    self.v("Deltas result does not start with the input: entry %r is %r, the input has %r" % (i, first[i].item(), before[i].item()), check="value_input_block", **info)
+                S = float(np.max(np.abs(before.astype(np.float64)))) if before.size else 1.0
+                # (a regression coefficient of unsigned data may be negative: what the cast to an unsigned type makes of it is not defined,
+                # so the filtered copies of uint64 tensors are not judged)
+                if before.dtype != np.dtype("uint64") and not np.all(np.abs(out.astype(np.float64) - ref.astype(np.float64)) <= 1e-9 * S + 1.0):
+                    self.v("Deltas value differs from the reference by more than 1e-9 of the largest input", check="value", **info)
+        else:
+            self._cmp(out, ref, before, info, "Deltas", getattr(deltas_ref, "last64", None))
         if not kw["in_place"]:
             if not np.array_equal(np.asarray(kw["features"]), before):
                 self.v("Deltas.apply modified its input", check="input_modified", **info)
@@ -280,6 +301,13 @@ def _data(rng, shape, dtype):
 
     if dtype in ("int32", "int16"):
         return relayout(rng, rng.integers(-1000, 1000, shape).astype(dtype))
+    if dtype in ("int64", "uint64"):
+        # time stamps in nanoseconds, sample counters, hashes: integers beyond 2^53
+        base = int(rng.choice([2 ** 53 + 1, 1_700_000_000_123_456_789, 2 ** 62 + 12345, 2 ** 40 + 3]))
+        return relayout(rng, (rng.integers(0, 1000, shape).astype(np.int64) * 7 + base).astype(dtype))
+    if dtype == "longdouble":
+        x = rng.standard_normal(shape).astype(np.longdouble)
+        return relayout(rng, x + x * np.finfo(np.longdouble).eps * 3)
     return relayout(rng, (rng.standard_normal(shape) * float(rng.choice([1e-3, 1, 50]))).astype(dtype))
 
 
@@ -332,6 +360,8 @@ def run_case(case, rec, mon=None):
                 W = [np.int8, np.uint8, np.int16, np.uint16][(j // 6) % 4](W)
                 nd = [np.uint8, np.int8, np.int32][(j // 6) % 3](nd)
                 rec.count("deltas_built_with_narrow_numpy_integer_options")
+            if j % 20 == 11:
+                dtype = ["int64", "uint64", "longdouble"][(j // 20) % 3]
             x = _data(rng, shape, dtype)
             x.setflags(write=False)
             if rng.random() < 0.1:
